@@ -15,12 +15,17 @@ Avx2 ==
   /\ Rep(Sub(a, b), a - b)
   /\ (SmallB(b) => LET r == SubSBSmall(a, b) IN IsWord(r) /\ Val(Shift(r)) = (Shift(a) - b) % P)
   /\ LET m == Mult128(a, b) IN IsWord(m.h) /\ IsWord(m.l) /\ m.h * T + m.l = a * b
+  /\ LET m == Mult128_512(a, b) IN IsWord(m.h) /\ IsWord(m.l) /\ m.h * T + m.l = a * b
+  /\ Mult128P(a, b, Hi(a) * Hi(b), Hi(a) * Lo(b), Lo(a) * Hi(b), Lo(a) * Lo(b)) = Mult128(a, b)
   /\ (b < Phi => LET m == Mult72(a, b) IN m.h < Phi /\ IsWord(m.l) /\ m.h * T + m.l = a * b)
+  /\ (b < Phi => LET m == Mult72_512(a, b) IN m.h < Phi /\ IsWord(m.l) /\ m.h * T + m.l = a * b)
   /\ Rep(Reduce128(a, b), a * T + b)
   /\ (a < Phi => Rep(Reduce96(a, b), a * T + b))
   /\ Rep(Mult(a, b), a * b)
   /\ (b < Phi => Rep(Mult8(a, b), a * b))
   /\ (b = 0 => LET m == Square128(a) IN IsWord(m.h) /\ IsWord(m.l) /\ m.h * T + m.l = a * a)
+  /\ (b = 0 => LET m == Square128_512(a) IN IsWord(m.h) /\ IsWord(m.l) /\ m.h * T + m.l = a * a)
+  /\ (b = 0 => ShiftK(a) = Shift(a))
   /\ (b = 0 => Rep(Square(a), a * a))
 Avx512 ==
   /\ (b = 0 => ToCanon512(a) = a % P)
